@@ -86,6 +86,10 @@ def generate(seed, tier):
             s['exec_seed'] = srng.randrange(1 << 30) if srng.chance(.5) \
                 else None
             s['inter_seed'] = srng.randrange(1 << 30)
+            # real externalLink parts ([1]Sheet!A1); not with the re-import
+            # path: to_dict() exports such formulas with their numeric link
+            # id, which from_dict() cannot resolve - C09's business
+            s['extlinks'] = srng.chance(.3) and s['mode'] != 'todict'
         scheds.append(s)
     return {'prop': ID, 'seed': seed, 'tier': tier, 'world': world,
             'schedules': scheds}
